@@ -705,19 +705,51 @@ Proof.
   - assert (find_sym st id = Some s) by (apply (find_sym_iff st id s (ti_ids _ T)); auto). congruence.
 Qed.
 
-Theorem insert_TI st sb : TI st -> ok_insert st sb -> TI (fst (insert st sb)).
+(* the state Insert builds before it loads: the symbol added, its name registered, both halves of links done *)
+Definition add_state (st0 : tstate) (sb : sym) : tstate :=
+  mkt (syms st0 ++ [sb])
+      (match s_name sb with
+       | Some n => (s_ns sb, n, s_id sb) :: filter (fun e : nat * nat * nat => negb (Nat.eqb (fst (fst e)) (s_ns sb) && Nat.eqb (snd (fst e)) n)) (nsmap st0)
+       | None => nsmap st0 end)
+      (refs st0) (links st0) (events st0).
+Definition linked_state (st0 : tstate) (sb : sym) : tstate := links_in (links_own (add_state st0 sb) sb) sb.
+
+Lemma insert_unfold st sb :
+  insert st sb =
+  match free st (s_id sb) with
+  | (st0, TFail e) => (st0, TFail e)
+  | (st0, TDone _) => match load (linked_state st0 sb) sb with (st3, Some e) => (st3, TFail e) | (st3, None) => (st3, TDone true) end
+  end.
+Proof. reflexivity. Qed.
+
+Lemma linked_state_shape st0 sb :
+  syms (linked_state st0 sb) = syms st0 ++ [sb] /\ events (linked_state st0 sb) = events st0.
 Proof.
-  intros T [OKsb NF]. unfold insert. pose proof (free_TI st (s_id sb) T) as T0.
-  pose proof (free_syms_exact st (s_id sb) T) as FS. pose proof (free_done_absent st (s_id sb) T) as FA.
-  destruct (free st (s_id sb)) as [st0 [b|e]]; cbn [fst snd] in *; [|exact T0].
-  specialize (FA (ex_intro _ b eq_refl)).
+  unfold linked_state. destruct (links_own_spec (add_state st0 sb) sb) as [[A _] _].
+  destruct (links_in_spec (links_own (add_state st0 sb) sb) sb) as [[B _] _]. split; [rewrite B, A; reflexivity|].
+  assert (E1 : forall st, events (links_own st sb) = events st).
+  { intros st. unfold links_own. apply (fold_left_pres (fun x => events x = events st)); [|reflexivity].
+    intros st1 np H1. apply (fold_left_pres (fun x => events x = events st)); [|exact H1].
+    intros st2 p H2. unfold link_own_ref. destruct (resolve_sym st2 (s_ns sb) p); [|exact H2]. destruct (Nat.eqb _ _); [cbn [events]|]; exact H2. }
+  assert (E2 : forall st, events (links_in st sb) = events st).
+  { intros st. unfold links_in. apply (fold_left_pres (fun x => events x = events st)); [|reflexivity].
+    intros st1 ref H1. unfold link_in_sym. destruct (negb _); [exact H1|].
+    apply (fold_left_pres (fun x => events x = events st)); [|exact H1]. intros st2 np H2.
+    apply (fold_left_pres (fun x => events x = events st)); [|exact H2]. intros st3 p H3.
+    unfold link_in_ref. destruct (_ || _); [cbn [events]|]; exact H3. }
+  rewrite E2, E1. reflexivity.
+Qed.
+
+Theorem add_TI st0 sb : TI st0 -> ~ In (s_id sb) (map s_id (syms st0)) -> sym_ok sb ->
+  (forall s n, In s (syms st0) -> s_ns s = s_ns sb -> s_name s = Some n -> s_name sb <> Some n) ->
+  TI (linked_state st0 sb).
+Proof.
+  intros T0 FA OKsb NF0. unfold linked_state, add_state.
   set (nsm := match s_name sb with
               | Some n => (s_ns sb, n, s_id sb) :: filter (fun e : nat * nat * nat => negb (Nat.eqb (fst (fst e)) (s_ns sb) && Nat.eqb (snd (fst e)) n)) (nsmap st0)
               | None => nsmap st0 end).
   set (st1 := mkt (syms st0 ++ [sb]) nsm (refs st0) (links st0) (events st0)).
   pose proof T0 as [ND0 NS0 OK0 RO0 KN0].
-  assert (NF0 : forall s n, In s (syms st0) -> s_ns s = s_ns sb -> s_name s = Some n -> s_name sb <> Some n).
-  { intros s n Is. apply NF; [apply FS in Is; tauto|]. intros E. apply FA. rewrite <- E. apply in_map. exact Is. }
   assert (ND1 : NoDup (map s_id (syms st1))).
   { unfold st1. cbn [syms]. rewrite map_app. cbn [map]. clear -ND0 FA. induction (map s_id (syms st0)) as [|x l IH]; cbn.
     - constructor; [intros []|constructor].
@@ -750,8 +782,6 @@ Proof.
   destruct (links_own_spec st1 sb) as [SO HO]. destruct (links_in_spec (links_own st1 sb) sb) as [SI HI].
   set (st2 := links_in (links_own st1 sb) sb) in *.
   assert (S12 : same_res st1 st2) by (eapply same_res_trans; eassumption).
-  apply (TI_same_tab st2); [|].
-  { pose proof (load_same st2 sb) as L. destruct (load st2 sb) as [st3 [e|]]; exact L. }
   destruct S12 as [Sy Nm]. destruct SO as [SyO _].
   split.
   - rewrite Sy. exact ND1.
@@ -782,6 +812,19 @@ Proof.
         apply (matchp_iff sb p Pk). destruct I as [I|[I1 [n [I2 [I3 I4]]]]]; [left; left; exact I|].
         right. split; [exact I1|]. exists n. auto.
   - apply links_in_keys, links_own_keys. exact KN0.
+Qed.
+
+
+Theorem insert_TI st sb : TI st -> ok_insert st sb -> TI (fst (insert st sb)).
+Proof.
+  intros T [OKsb NF]. rewrite insert_unfold. pose proof (free_TI st (s_id sb) T) as T0.
+  pose proof (free_syms_exact st (s_id sb) T) as FS. pose proof (free_done_absent st (s_id sb) T) as FA.
+  destruct (free st (s_id sb)) as [st0 [b|e]]; cbn [fst snd] in *; [|exact T0].
+  specialize (FA (ex_intro _ b eq_refl)).
+  assert (T2 : TI (linked_state st0 sb)).
+  { apply add_TI; auto. intros s n Is. apply NF; [apply FS in Is; tauto|]. intros E. apply FA. rewrite <- E. apply in_map. exact Is. }
+  pose proof (load_same (linked_state st0 sb) sb) as L.
+  destruct (load (linked_state st0 sb) sb) as [st3 [e|]]; cbn [fst] in *; apply (TI_same_tab _ _ L T2).
 Qed.
 
 (* ---- every reachable state ---- *)
@@ -831,4 +874,32 @@ Theorem t_run_TI ops : wf_from t_init ops -> TI (t_run ops).
 Proof.
   unfold t_run. generalize TI_init. generalize t_init. induction ops as [|op ops IH]; intros st T W; cbn [fold_left]; [exact T|].
   destruct W as [O W]. apply IH; [apply step_TI; assumption|exact W].
+Qed.
+
+(* a computable form of the history condition *)
+Definition pref_ok_b (p : pref) : bool := match pr_id p, pr_name p with Some _, Some _ => false | _, _ => true end.
+Definition sym_ok_b (s : sym) : bool := forallb (fun np : nat * list pref => forallb pref_ok_b (snd np)) (s_ports s).
+Definition name_free_b (st : tstate) (sb : sym) : bool :=
+  forallb (fun s => Nat.eqb (s_id s) (s_id sb) || negb (Nat.eqb (s_ns s) (s_ns sb)) ||
+                    match s_name s, s_name sb with Some n, Some m => negb (Nat.eqb n m) | _, _ => true end) (syms st).
+Definition ok_op_b (st : tstate) (op : top) : bool :=
+  match op with TInsert sb => sym_ok_b sb && name_free_b st sb | _ => true end.
+Fixpoint wf_from_b (st : tstate) (ops : list top) : bool :=
+  match ops with [] => true | op :: rest => ok_op_b st op && wf_from_b (t_step st op) rest end.
+
+Lemma ok_op_b_sound st op : ok_op_b st op = true -> ok_op st op.
+Proof.
+  destruct op as [sb|id|]; cbn [ok_op_b ok_op]; [|exact (fun _ => I)|exact (fun _ => I)].
+  intros H. apply andb_prop in H. destruct H as [H1 H2]. split.
+  - intros np p Inp Ip. unfold sym_ok_b in H1. rewrite forallb_forall in H1. specialize (H1 np Inp). rewrite forallb_forall in H1.
+    specialize (H1 p Ip). unfold pref_ok_b, pref_ok in *. destruct (pr_id p); [destruct (pr_name p); [discriminate|right; reflexivity]|left; reflexivity].
+  - intros s n Is Nid Ens Enm. unfold name_free_b in H2. rewrite forallb_forall in H2. specialize (H2 s Is).
+    destruct (Nat.eqb_spec (s_id s) (s_id sb)); [contradiction|]. rewrite Ens, Nat.eqb_refl, Enm in H2. cbn [negb orb] in H2.
+    destruct (s_name sb) as [m|]; [|discriminate]. apply negb_true_iff, Nat.eqb_neq in H2. congruence.
+Qed.
+
+Lemma wf_from_b_sound : forall ops st, wf_from_b st ops = true -> wf_from st ops.
+Proof.
+  induction ops as [|op ops IH]; intros st H; cbn [wf_from_b wf_from] in *; [exact I|].
+  apply andb_prop in H. destruct H as [H1 H2]. split; [apply ok_op_b_sound; exact H1|apply IH; exact H2].
 Qed.
